@@ -1098,7 +1098,7 @@ func (c *DefaultCtx) Params(key string, defaultValue ...string) string {
 			if len(c.values) <= i || len(c.values[i]) == 0 {
 				break
 			}
-			return c.values[i]
+			return c.app.getString(utils.UnsafeBytes(c.values[i]))
 		}
 	}
 	return defaultString("", defaultValue)
